@@ -131,8 +131,8 @@ cls(
         # only the reader touches either, so this holds whenever the reader is between two calls
         ("WSStream.inv.buffer", "implies(has(self, 'connection'), (self.buffer.value is None) == (value_of(self, 'connection').cur_type == 0) "
          "and implies(self.buffer.value is not None, isinstance(self.buffer.value, StringIO) == (value_of(self, 'connection').cur_type == 1)))", "C10,C04")],
-              "app": [("WSStream.qinv.handshake", "implies(self.state == ASGIWebsocketState.HANDSHAKE and not self.g_finished, self.g_n_final == 0 and self.g_n_end == 0)", "C11,C12"),
-                      ("WSStream.qinv.answered", "implies(self.state in (ASGIWebsocketState.CONNECTED, ASGIWebsocketState.RESPONSE, ASGIWebsocketState.HTTPCLOSED), self.g_n_final == 1)", "C11,C12")]},
+              "app": [("WSStream.qinv.handshake", "implies(self.state == ASGIWebsocketState.HANDSHAKE and not self.g_finished, self.g_n_final == 0 and self.g_n_end == 0)", "C11,C12,C05"),
+                      ("WSStream.qinv.answered", "implies(self.state in (ASGIWebsocketState.CONNECTED, ASGIWebsocketState.RESPONSE, ASGIWebsocketState.HTTPCLOSED), self.g_n_final == 1)", "C11,C12,C05")]},
     task_stable={"app": ["response", "scope", "start_time", "handshake"], "reader": ["buffer", "scope", "start_time", "handshake", "connection"]},
     published_inv=[("WSStream.published.requested", "has(self, 'scope') and has(self, 'start_time') and has(self, 'handshake')", "C04")],
 )
